@@ -773,3 +773,37 @@ type WithProcAuthFlush struct{ WithAuthFlush }
 
 func (o WithProcAuthFlush) SrvReqProcess(r *go9p.SrvReq) { o.Ops.srvReqProcess(r) }
 func (o WithProcAuthFlush) SrvReqRespond(r *go9p.SrvReq) { o.Ops.srvReqRespond(r) }
+
+// ---- implementations that provide only some of the optional interfaces (Go embedding would promote all of *Ops)
+
+// reqOnly has the mandatory request operations and nothing else.
+type reqOnly struct{ o *Ops }
+
+func (w reqOnly) Attach(r *go9p.SrvReq) { w.o.Attach(r) }
+func (w reqOnly) Walk(r *go9p.SrvReq)   { w.o.Walk(r) }
+func (w reqOnly) Open(r *go9p.SrvReq)   { w.o.Open(r) }
+func (w reqOnly) Create(r *go9p.SrvReq) { w.o.Create(r) }
+func (w reqOnly) Read(r *go9p.SrvReq)   { w.o.Read(r) }
+func (w reqOnly) Write(r *go9p.SrvReq)  { w.o.Write(r) }
+func (w reqOnly) Clunk(r *go9p.SrvReq)  { w.o.Clunk(r) }
+func (w reqOnly) Remove(r *go9p.SrvReq) { w.o.Remove(r) }
+func (w reqOnly) Stat(r *go9p.SrvReq)   { w.o.Stat(r) }
+func (w reqOnly) Wstat(r *go9p.SrvReq)  { w.o.Wstat(r) }
+
+// ReqOnly: SrvReqOps only.
+func ReqOnly(o *Ops) interface{} { return reqOnly{o} }
+
+type connOnly struct{ reqOnly }
+
+func (w connOnly) ConnOpened(c *go9p.Conn) { w.o.ConnOpened(c) }
+func (w connOnly) ConnClosed(c *go9p.Conn) { w.o.ConnClosed(c) }
+
+// ConnOnly: SrvReqOps + ConnOps, no SrvFidOps (the implementation is never told about fids going away).
+func ConnOnly(o *Ops) interface{} { return connOnly{reqOnly{o}} }
+
+type fidOnly struct{ reqOnly }
+
+func (w fidOnly) FidDestroy(f *go9p.SrvFid) { w.o.FidDestroy(f) }
+
+// FidOnly: SrvReqOps + SrvFidOps, no ConnOps.
+func FidOnly(o *Ops) interface{} { return fidOnly{reqOnly{o}} }
